@@ -658,8 +658,8 @@ func (h *hist) opUFinish(k int) {
 		c.finished = true
 		h.emit(map[string]interface{}{"op": "ufinish", "k": k}, map[string]interface{}{"status": r.Status, "err": r.Err, "resp_tag": r.Header.Get("X-Resp-Tag"), "body_ok": h.bodyMatches(r),
 			"body_len": len(r.Body), "ms": r.Ms})
-	case <-time.After(3 * time.Second):
-		h.emit(map[string]interface{}{"op": "ufinish", "k": k}, map[string]interface{}{"status": -1, "err": "no answer within 3 s"})
+	case <-time.After(10 * time.Second):
+		h.emit(map[string]interface{}{"op": "ufinish", "k": k}, map[string]interface{}{"status": -1, "err": "no answer within 10 s"})
 	}
 }
 
@@ -710,7 +710,7 @@ func (h *hist) opAList(mail, backend string, fs []string) {
 	before := h.e.api.Snapshot()
 	var r reply
 	h.e.withFaults(fs, func() {
-		r = h.e.call("agent", "GET", "/agent/pending", ident{OAuth: mail}, agentHdr(backend, ""), nil, 1500*time.Millisecond, false)
+		r = h.e.call("agent", "GET", "/agent/pending", ident{OAuth: mail}, agentHdr(backend, ""), nil, 3*time.Second, false)
 	})
 	var ids []string
 	json.Unmarshal(r.Body, &ids)
@@ -720,7 +720,7 @@ func (h *hist) opAList(mail, backend string, fs []string) {
 	}
 	obs := map[string]interface{}{"status": r.Status, "err": r.Err != "", "ks": ks, "changed": diffKeys(before, h.e.api.Snapshot()), "leak": r.Status != 200 && h.leaks(r)}
 	if r.Err != "" {
-		obs["status"] = -1 // long poll (nothing pending): the client gave up after 1.5 s
+		obs["status"] = -1 // long poll (nothing pending): the client gave up after 3 s
 	}
 	obs["owner"] = ownerBefore
 	h.emit(map[string]interface{}{"op": "alist", "ident": mail, "backend": backend, "faults": fs}, obs)
@@ -787,7 +787,7 @@ func (h *hist) opARespond(mail, backend, ref string, total int, status int, cc b
 	before := h.e.api.Snapshot()
 	var r reply
 	h.e.withFaults(fs, func() {
-		r = h.e.call("agent", "POST", "/agent/response", ident{OAuth: mail}, agentHdr(backend, rid), resp, 4*time.Second, false)
+		r = h.e.call("agent", "POST", "/agent/response", ident{OAuth: mail}, agentHdr(backend, rid), resp, 10*time.Second, false)
 	})
 	obs := map[string]interface{}{"status": r.Status, "err": r.Err != "", "ms": r.Ms, "leak": r.Status != 200 && h.leaks(r)}
 	if r.Err != "" {
